@@ -34,8 +34,10 @@ theorem ahead_step_small (fuel : Nat) (bs rest : Bytes) (fin : EndState) (h : He
     ∃ rest', (aheadLoop (fuel + 1) bs fin).1 = h :: (aheadLoop fuel rest' fin).1 ∧
       (aheadLoop (fuel + 1) bs fin).2 = (aheadLoop fuel rest' fin).2 ∧
       rest' = (match fr.kind with | .buffered n => rest.drop n | _ => rest) := by
+  have hf' : framingFor h.version h.headers = .ok fr := by
+    rw [framingFor_of_not_high _ _ hver]; exact hf
   rw [aheadLoop]
-  simp only [hh, hf, hver, hlast, Bool.false_eq_true, if_false]
+  simp only [hh, hf', hver, hlast, Bool.false_eq_true, if_false]
   rcases hk with hk | ⟨n, hk, hn⟩
   · rw [hk]; exact ⟨rest, rfl, rfl, rfl⟩
   · rw [hk]
